@@ -231,6 +231,23 @@ def engine_roles(c, flavour, cache=False, sink=True, past=None):
     universe = _universe(c["graph"], [c["roles"]])
     pol = _roles_policy(universe)
     sink = Sink() if sink else None
+    class ScribbleRaisingR:                   # edits the list it is handed, then fails (finding F28)
+        def expand(self, roles):
+            roles.append("!scribble")
+            raise RuntimeError("resolver down (after editing its argument)")
+
+    class ExtendRaisingR:                     # worklist on its argument, fails when done
+        def expand(self, roles):
+            roles.extend(x for x in base.expand(roles) if x not in roles)
+            raise RuntimeError("resolver down (after expanding in place)")
+
+    class AsyncExtendRaisingR:
+        async def expand(self, roles):
+            roles.extend(x for x in base.expand(roles) if x not in roles)
+            await asyncio.sleep(0)
+            roles.sort()
+            raise RuntimeError("resolver down (after expanding in place, awaited)")
+
     # resolver objects that are falsy as Python objects: configured all the same, consulted like any other
     class FalsyListR(list):
         expand = SyncR.expand
@@ -252,7 +269,8 @@ def engine_roles(c, flavour, cache=False, sink=True, past=None):
 
     res = {"sync": SyncR, "async": AsyncR, "raising": RaisingR, "raising-async": AsyncRaisingR,
            "raising-awaitable": DefRaisingAwaitableR, "def-coroutine": DefCoroutineR,
-           "custom-awaitable": CustomAwaitableR, "falsy-list": FalsyListR, "falsy-dict": FalsyDictR,
+           "custom-awaitable": CustomAwaitableR, "raising-scribble": ScribbleRaisingR, "raising-extend": ExtendRaisingR,
+           "raising-extend-async": AsyncExtendRaisingR, "falsy-list": FalsyListR, "falsy-dict": FalsyDictR,
            "falsy-len0": FalsyLenR, "falsy-bool": FalsyBoolR, "falsy-len0-async": FalsyLenAsyncR}[flavour]()
     kw = {}
     if cache:
@@ -612,10 +630,9 @@ def check_overlap(chk, scen):
 # histories on one Guard: collaborators and callers that keep or edit what they are handed / what they own
 # ---------------------------------------------------------------------------------------------------------------
 
-# generated kinds.  NOT generated: "scribble-raise" / "extend-raise" (edit the argument, then fail) — on the unchanged
-# library the engine falls back to its working copy, which the resolver has edited, not to the subject's own roles
-# (reported to the coordinator in round 6; the kinds stay implemented below for replays)
-HIST_KINDS = ("pure", "inplace-same", "extend-arg", "sort-arg", "clear-arg", "same-if-equal", "raise", "raise")
+# "scribble-raise" / "extend-raise": edit the argument, then fail (finding F28, fixed: corpus/C18/F28_*.json)
+HIST_KINDS = ("pure", "inplace-same", "extend-arg", "sort-arg", "clear-arg", "same-if-equal",
+              "raise", "scribble-raise", "extend-raise")
 HIST_FALSY = (None, "list", "dict", "len0", "boolfalse")
 
 
@@ -648,7 +665,7 @@ def _hist_resolver(spec, state):
         if kind == "raise":
             raise ConnectionError("role directory unreachable")
         if kind == "scribble-raise":
-            roles.append("!scribble")
+            roles.append(spec.get("scribble", "!scribble"))
             raise ConnectionError("role directory unreachable")
         if kind == "extend-raise":
             roles.extend(x for x in base.expand(roles) if x not in roles)
@@ -703,6 +720,8 @@ def _hist_shadow(c):
 def _hist_universe(c):
     gs = [c["graph"]] + [op[1] for op in c["ops"] if op[0] == "graph"]
     names = set(c["roles"] or [])
+    if c["resolver"].get("scribble"):
+        names.add(c["resolver"]["scribble"])
     for g in gs:
         names |= set(g) | {p for ps in g.values() for p in ps}
     for op in c["ops"]:
@@ -879,6 +898,12 @@ def check_histories(chk, hs):
         chk.count("history:" + spec["kind"])
         chk.count("history-falsy:" + str(spec.get("falsy")))
         evals = [op for op in c["ops"] if op[0] == "eval"]
+        if c.get("expect"):                      # corpus witness: what was recorded must also be what is seen
+            got = {"allowed": [r["allowed"] for r in recs], "audit": [r["audit"] for r in recs]}
+            if got != c["expect"]:
+                chk.violation(f"corpus witness {c.get('fam', '')}: decisions / audit roles differ from the recorded ones ({what})",
+                              c, impl=got, model=c["expect"])
+                continue
         for i, (op, sh, m, r) in enumerate(zip(evals, shadow, exp, recs)):
             expect = list(sh["roles"]) if failing else m
             chk.mark(("history", repr(spec), repr(c["graph"]), repr(c["ops"]), i), any(sh["graph"].get(x) for x in sh["roles"]))
@@ -904,6 +929,7 @@ ENGINE_STD = (("sync", False), ("async", False), ("raising", False), ("sync", Tr
               ("raising-async", False), ("raising-awaitable", False), ("def-coroutine", False), ("custom-awaitable", False),
               ("raising-async", True))
 ENGINE_FLAVOURS = ("sync", "async", "raising", "raising-async", "raising-awaitable", "def-coroutine", "custom-awaitable",
+                   "raising-scribble", "raising-extend", "raising-extend-async",
                    "falsy-list", "falsy-dict", "falsy-len0", "falsy-bool", "falsy-len0-async")
 
 
@@ -1001,6 +1027,21 @@ def check_cases(chk, cases, replay=False):
     check_histories(chk, hists)
 
 
+def corpus_cases():
+    """witnesses of findings (fixed or open) and minimised past failures: corpus/C18/*.json, {"cases": [case | {"case": case}, ...]} or {"case": ...}"""
+    import json
+    out = []
+    d = lib.VERIF / "corpus" / "C18"
+    if d.is_dir():
+        for f in sorted(d.glob("*.json")):
+            data = json.loads(f.read_text())
+            for c in data.get("cases", [data["case"]] if "case" in data else []):
+                c = lib.unjson(c["case"] if set(c) == {"case"} else c)     # {"case": ...} entries: --replay reads the file too
+                c.setdefault("fam", "corpus:" + f.stem)
+                out.append(c)
+    return out
+
+
 def run(chk):
     chk.rule = ("enumerated: every inheritance graph on 3 role names x every role list of length <= 3 over those "
                 "names and one absent name (quick: every 3rd), plus random graphs up to 30 nodes with cycles, "
@@ -1014,4 +1055,7 @@ def run(chk):
                 "distinct (graph, roles[, resolver flavour / Guard configuration / schedule])")
     chk.assumptions = ["role names are strings (what the property quantifies over)",
                        "Python str ordering on code points = byte order of the UTF-8 encoding (model sorts bytes)"]
+    cc = corpus_cases()                         # corpus first
+    chk.count("corpus", len(cc))
+    check_cases(chk, cc, replay=True)
     check_cases(chk, gen_cases(chk))
